@@ -620,7 +620,11 @@ type Contract struct {
 	Decreases *Clause          // termination measure (integer expression over the parameters)
 	DecreasesList []Clause     // lexicographic components
 	sitesSeen   map[string]bool
+	Captures    []Clause            // facts about captured variables: asserted where the closure is created, assumed at its entry
+	Pkg         *types.Package      // package of the contract file
 	Shared      []SharedGuard       // local data shared between goroutines, accessed only with a lock held
+	SiteSets    map[string][]Clause // "<site class>#<ordinal>" -> ghost updates `set g(args)` executed right before that instruction
+	SiteSnaps   map[string][]string // "<site class>#<ordinal>" -> names of heap snapshots taken right before that instruction
 	SiteAsserts map[string][]Clause // "<site class>#<ordinal>" -> assertions checked right before that instruction
 }
 
@@ -863,6 +867,15 @@ func ParseSpecText(path string, text string, raw bool) (*SpecFile, error) {
 			default:
 				return nil, fmt.Errorf("%s:%d: bad loop clause %q", path, l.no, w3)
 			}
+		case "captures":
+			if cur == nil {
+				return nil, fmt.Errorf("%s:%d: captures outside of a contract", path, l.no)
+			}
+			cl, err := mkClause(rest, l.no)
+			if err != nil {
+				return nil, err
+			}
+			cur.Captures = append(cur.Captures, cl)
 		case "shared":
 			if cur == nil {
 				return nil, fmt.Errorf("%s:%d: shared outside of a contract", path, l.no)
@@ -890,6 +903,40 @@ func ParseSpecText(path string, text string, raw bool) (*SpecFile, error) {
 			// site <class words>#<n> assert <expr>
 			if cur == nil {
 				return nil, fmt.Errorf("%s:%d: site outside of a contract", path, l.no)
+			}
+			if j := strings.Index(rest, " set "); j >= 0 && !strings.Contains(rest, " assert ") {
+				// site <class>#<n> set g(args): the boolean ghost g becomes true for these arguments
+				k := strings.TrimSpace(rest[:j])
+				cl, err := mkClause(rest[j+5:], l.no)
+				if err != nil {
+					return nil, err
+				}
+				if cur.SiteSets == nil {
+					cur.SiteSets = map[string][]Clause{}
+				}
+				cur.SiteSets[k] = append(cur.SiteSets[k], cl)
+				if cur.SiteAsserts == nil {
+					cur.SiteAsserts = map[string][]Clause{}
+				}
+				if _, ok := cur.SiteAsserts[k]; !ok {
+					cur.SiteAsserts[k] = nil
+				}
+				continue
+			}
+			if j := strings.Index(rest, " snapshot "); j >= 0 && !strings.Contains(rest, " assert ") {
+				// site <class>#<n> snapshot <name>: at(<name>, e) evaluates e in the heap of that moment
+				if cur.SiteSnaps == nil {
+					cur.SiteSnaps = map[string][]string{}
+				}
+				k := strings.TrimSpace(rest[:j])
+				cur.SiteSnaps[k] = append(cur.SiteSnaps[k], strings.TrimSpace(rest[j+10:]))
+				if cur.SiteAsserts == nil {
+					cur.SiteAsserts = map[string][]Clause{}
+				}
+				if _, ok := cur.SiteAsserts[k]; !ok {
+					cur.SiteAsserts[k] = nil
+				}
+				continue
 			}
 			i := strings.Index(rest, " assert ")
 			if i < 0 {
